@@ -48,9 +48,10 @@ from pathlib import Path
 warnings.filterwarnings("ignore", category=SyntaxWarning)
 VERIF = Path(__file__).resolve().parent.parent
 REPO = Path(os.environ.get("PYSERSIC_REPO", "/repo"))
-OUT = VERIF / "lean" / "PysersicModel" / "Gen" / "Kernels.lean"
+LEAN_DIR = Path(os.environ.get("VERIF_LEAN_DIR", str(VERIF / "lean")))
+OUT = LEAN_DIR / "PysersicModel" / "Gen" / "Kernels.lean"
 FALLBACK = VERIF / "tools" / "kernels_fallback.json"
-REPORT = VERIF / "lean" / ".lake" / "gen_kernels_report.json"
+REPORT = LEAN_DIR / ".lake" / "gen_kernels_report.json"
 
 
 class Miss(Exception):
@@ -707,6 +708,274 @@ def lean_str(s):
     return '"' + s.replace("\\", "\\\\").replace('"', '\\"') + '"'
 
 
+# ----------------------------------------------------------------------------------------------------------------
+# loss programs: a numpyro loss function — latent `sample` sites, `deterministic` values, one observed `sample` site or
+# one `factor` under `handlers.mask(mask=mask)` — becomes (i) the per-pixel log-density term of the observed/factor site
+# as a function of the pixel (mod, data, rms), the function's keyword parameters, the aggregate `mean(rms)` and the
+# values of the latent sites, and (ii) the list of latent sites (name without suffix, distribution), in source order
+# ----------------------------------------------------------------------------------------------------------------
+
+LOSSES = ["gaussian_loss", "cash_loss", "gaussian_loss_w_frac", "gaussian_loss_w_sys", "student_t_loss",
+          "student_t_loss_free_sys", "pseudo_huber_loss", "gaussian_mixture", "gaussian_mixture_w_sys", "gaussian_mixture_w_frac"]
+PIXEL_ARGS = ("mod", "data", "rms")
+
+
+class Pair:
+    def __init__(self, a, b, nodes):
+        self.a, self.b, self.nodes = a, b, nodes
+
+
+class LossProgram:
+    def __init__(self, fn, tree, src):
+        self.fn, self.src = fn, src
+        names = [a.arg for a in fn.args.args]
+        for need in PIXEL_ARGS + ("mask",):
+            if need not in names:
+                raise Miss(f"loss without parameter {need}")
+        self.keyword_params = [n for n in names if n not in PIXEL_ARGS + ("mask", "suffix")]
+        self.tr = Translator(src, [n for n in names if n not in ("mask", "suffix")], module=module_table(tree))
+        self.latents = []         # (python name, site name, Lean dist text)
+        self.determ = []          # site names of `deterministic`
+        self.means = []           # which aggregate means are used
+        self.dists = {}           # python name -> Lean text of a distribution value (or ("cat", w) / ("normal2", …))
+        self.lines = []
+        self.value = None         # Lean text of the per-pixel term
+        self.obs = None           # (site name, kind, masked)
+
+    # site names: f'name{suffix}' or 'name' + suffix
+    def site_name(self, node):
+        if isinstance(node, ast.JoinedStr) and len(node.values) == 2 and isinstance(node.values[0], ast.Constant) \
+                and isinstance(node.values[1], ast.FormattedValue) and isinstance(node.values[1].value, ast.Name) \
+                and node.values[1].value.id == "suffix" and node.values[1].format_spec is None and node.values[1].conversion == -1:
+            return node.values[0].value
+        if isinstance(node, ast.BinOp) and isinstance(node.op, ast.Add) and isinstance(node.left, ast.Constant) \
+                and isinstance(node.left.value, str) and isinstance(node.right, ast.Name) and node.right.id == "suffix":
+            return node.left.value
+        raise Miss("site name is not <literal> followed by the suffix")
+
+    def scalar(self, node):
+        """scalar expression, with `jnp.mean(rms[, where=mask])` as an aggregate input"""
+        if isinstance(node, ast.Call) and dotted(node.func) in ("jnp.mean", "np.mean") and len(node.args) == 1 \
+                and isinstance(node.args[0], ast.Name) and node.args[0].id == "rms":
+            kws = {k.arg: k.value for k in node.keywords}
+            if not kws:
+                nm = "mean_rms_all"
+            elif list(kws) == ["where"] and isinstance(kws["where"], ast.Name) and kws["where"].id == "mask":
+                nm = "mean_rms_good"
+            else:
+                raise Miss("jnp.mean with other keywords")
+            if nm not in self.means:
+                self.means.append(nm)
+            return T(nm, atom=True)
+        # let the expression translator see the aggregate through a placeholder
+        class R(ast.NodeTransformer):
+            def visit_Call(s2, n):
+                if dotted(n.func) in ("jnp.mean", "np.mean"):
+                    t = self.scalar(n)
+                    return ast.copy_location(ast.Name(id="__" + t.text, ctx=ast.Load()), n)
+                return s2.generic_visit(n)
+        import copy
+        node2 = R().visit(copy.deepcopy(node))
+        for m in self.means:
+            self.tr.scope.setdefault("__" + m, (m, "re"))
+        v = self.tr.ex(node2)
+        if v.cx:
+            raise Miss("complex value in a loss")
+        return v
+
+    def opt(self, node, default):
+        if node is None:
+            return default
+        if isinstance(node, ast.Constant) and node.value is None:
+            return "none"
+        return f"(some {self.scalar(node).p()})"
+
+    def pair(self, node):
+        """jnp.stack([a, b], axis=-1) / jnp.array([a, b]) → the two scalar components"""
+        if isinstance(node, ast.Call) and dotted(node.func) in ("jnp.stack", "jnp.array", "np.array", "jnp.asarray") and node.args \
+                and isinstance(node.args[0], (ast.List, ast.Tuple)) and len(node.args[0].elts) == 2:
+            for k in node.keywords:
+                if not (k.arg == "axis" and isinstance(k.value, (ast.Constant, ast.UnaryOp))):
+                    raise Miss("stack keyword")
+            a, b = node.args[0].elts
+            return Pair(self.scalar(a), self.scalar(b), (a, b))
+        raise Miss("expected a two-component stack")
+
+    def dist(self, node):
+        """a numpyro distribution expression → Lean `Dist α` text"""
+        if isinstance(node, ast.Name) and node.id in self.dists:
+            return self.dists[node.id]
+        if not isinstance(node, ast.Call):
+            raise Miss("distribution expression")
+        f = dotted(node.func) or ""
+        fam = f.split(".")[-1]
+        args = list(node.args)
+        kws = {k.arg: k.value for k in node.keywords}
+        if None in kws:
+            raise Miss("**kwargs in a distribution")
+
+        def take(names, defaults):
+            vals = {}
+            rest = list(args)
+            for nme in names:
+                if rest:
+                    vals[nme] = rest.pop(0)
+                elif nme in kws:
+                    vals[nme] = kws.pop(nme)
+            if rest:
+                raise Miss("too many positional arguments")
+            return [vals.get(nme) for nme in names]
+        if fam == "Normal":
+            loc, scale = take(["loc", "scale"], None)
+            if kws:
+                raise Miss("Normal keyword")
+            if isinstance(loc, ast.Call) and dotted(loc.func) in ("jnp.stack",):
+                pl, ps = self.pair(loc), self.pair(scale)
+                if ast.dump(pl.nodes[0]) != ast.dump(pl.nodes[1]):
+                    raise Miss("two-component Normal with different locations")
+                return ("normal2", pl.a, ps.a, ps.b)
+            l = self.scalar(loc) if loc is not None else nat(0)
+            sc = self.scalar(scale) if scale is not None else nat(1)
+            return f"(Dist.normal {l.p()} {sc.p()})"
+        if fam == "StudentT":
+            df, loc, scale = take(["df", "loc", "scale"], None)
+            if kws or df is None:
+                raise Miss("StudentT arguments")
+            l = self.scalar(loc) if loc is not None else nat(0)
+            sc = self.scalar(scale) if scale is not None else nat(1)
+            return f"(Dist.studentT {self.scalar(df).p()} {l.p()} {sc.p()})"
+        if fam == "TruncatedNormal":
+            loc, scale = take(["loc", "scale"], None)
+            low, high = kws.pop("low", None), kws.pop("high", None)
+            if kws:
+                raise Miss("TruncatedNormal keyword")
+            l = self.scalar(loc) if loc is not None else nat(0)
+            sc = self.scalar(scale) if scale is not None else nat(1)
+            return f"(Dist.truncNormal {l.p()} {sc.p()} {self.opt(low, 'none')} {self.opt(high, 'none')})"
+        if fam == "Categorical":
+            if args or list(kws) != ["probs"]:
+                raise Miss("Categorical arguments")
+            pr = self.pair(kws["probs"])
+            a, b = pr.nodes
+            # probs = [1 - w, w]
+            if not (isinstance(a, ast.BinOp) and isinstance(a.op, ast.Sub) and isinstance(a.left, ast.Constant)
+                    and a.left.value in (1, 1.0) and ast.dump(a.right) == ast.dump(b)):
+                raise Miss("Categorical probabilities are not [1 - w, w]")
+            return ("cat", pr.b)
+        if fam == "MixtureSameFamily":
+            mix, comp = take(["mixing_distribution", "component_distribution"], None)
+            if kws or mix is None or comp is None:
+                raise Miss("MixtureSameFamily arguments")
+            m, c = self.dist(mix), self.dist(comp)
+            if not (isinstance(m, tuple) and m[0] == "cat" and isinstance(c, tuple) and c[0] == "normal2"):
+                raise Miss("mixture other than Categorical([1-w, w]) over two Normals")
+            return f"(Dist.mix2Normal {m[1].p()} {c[1].p()} {c[2].p()} {c[3].p()})"
+        raise Miss(f"distribution {fam}")
+
+    def flush_lets(self, n0):
+        for ln, v in self.tr.lets[n0:]:
+            self.lines.append(f"  let {ln} := {v.text}")
+
+    def statement(self, s, masked):
+        if self.value is not None:
+            if isinstance(s, ast.Return):
+                return
+            raise Miss("statement after the observed site")
+        if isinstance(s, ast.With):
+            if not (len(s.items) == 1 and isinstance(s.items[0].context_expr, ast.Call)
+                    and dotted(s.items[0].context_expr.func) in ("handlers.mask", "numpyro.handlers.mask")
+                    and [k.arg for k in s.items[0].context_expr.keywords] == ["mask"] and not s.items[0].context_expr.args
+                    and isinstance(s.items[0].context_expr.keywords[0].value, ast.Name)
+                    and s.items[0].context_expr.keywords[0].value.id == "mask"):
+                raise Miss("with-block other than handlers.mask(mask=mask)")
+            for t in s.body:
+                self.statement(t, True)
+            return
+        if isinstance(s, ast.Return):
+            raise Miss("return before the observed site")
+        if not (isinstance(s, ast.Assign) and len(s.targets) == 1 and isinstance(s.targets[0], ast.Name)):
+            raise Miss(f"statement {type(s).__name__}")
+        tgt, val = s.targets[0].id, s.value
+        f = dotted(val.func) if isinstance(val, ast.Call) else None
+        if f in ("sample", "numpyro.sample"):
+            kws = {k.arg: k.value for k in val.keywords}
+            if len(val.args) != 2:
+                raise Miss("sample(...) arguments")
+            name = self.site_name(val.args[0])
+            d = self.dist(val.args[1])
+            if isinstance(d, tuple):
+                raise Miss("bare component distribution at a site")
+            if "obs" in kws:
+                if list(kws) != ["obs"] or not (isinstance(kws["obs"], ast.Name) and kws["obs"].id == "data"):
+                    raise Miss("observed site not on `data`")
+                self.value = f"Dist.logProb {d} data"
+                self.obs = (name, "observed", masked)
+                return
+            if kws:
+                raise Miss("sample keyword")
+            if masked:
+                raise Miss("latent site under the mask")
+            self.latents.append((tgt, name, d))
+            self.tr.scope[tgt] = (lean_ident(tgt), "re")
+            return
+        if f in ("factor", "numpyro.factor"):
+            if len(val.args) != 2 or val.keywords:
+                raise Miss("factor(...) arguments")
+            n0 = len(self.tr.lets)
+            v = self.scalar(val.args[1])
+            self.flush_lets(n0)
+            self.value = v.text
+            self.obs = (self.site_name(val.args[0]), "factor", masked)
+            return
+        if f in ("deterministic", "numpyro.deterministic"):
+            if len(val.args) != 2 or val.keywords:
+                raise Miss("deterministic(...) arguments")
+            self.determ.append(self.site_name(val.args[0]))
+            n0 = len(self.tr.lets)
+            v = self.scalar(val.args[1])
+            self.flush_lets(n0)
+            self.lines.append(f"  let {lean_ident(tgt)} := {v.text}")
+            self.tr.scope[tgt] = (lean_ident(tgt), "re")
+            return
+        if f and f.split(".")[-1] in ("Normal", "StudentT", "TruncatedNormal", "Categorical", "MixtureSameFamily"):
+            self.dists[tgt] = self.dist(val)
+            return
+        n0 = len(self.tr.lets)
+        v = self.scalar(val)
+        self.flush_lets(n0)
+        self.lines.append(f"  let {lean_ident(tgt)} := {v.text}")
+        self.tr.scope[tgt] = (lean_ident(tgt), "re")
+
+
+def translate_loss(name, tree, src):
+    fn = find_func(tree, name)
+    lp = LossProgram(fn, tree, src)
+    for s in fn.body:
+        if isinstance(s, ast.Expr) and isinstance(s.value, ast.Constant) and isinstance(s.value.value, str):
+            continue
+        lp.statement(s, False)
+    if lp.value is None or lp.obs is None:
+        raise Miss("no observed site or factor")
+    params = list(PIXEL_ARGS) + lp.keyword_params + lp.means + [t for t, _, _ in lp.latents]
+    defaults = {}
+    allargs = [a.arg for a in fn.args.args]
+    for a, d in zip(allargs[len(allargs) - len(fn.args.defaults):], fn.args.defaults):
+        if a in lp.keyword_params:
+            if not (isinstance(d, ast.Constant) and isinstance(d.value, (int, float)) and not isinstance(d.value, bool)):
+                raise Miss(f"default of {a}")
+            defaults[a] = repr(d.value)
+    text = [f"/-- translated from pysersic/loss.py `{name}`: log-density term of one unmasked pixel at the {lp.obs[1]} site "
+            f"`{lp.obs[0]}<suffix>` -/",
+            f"def {name}_pixel " + " ".join(f"({lean_ident(p)} : α)" for p in params) + " : α :=",
+            *lp.lines, f"  {lp.value}", "",
+            f"/-- the latent sites of `{name}` (name without suffix, distribution), in source order -/",
+            f"def {name}_sites : List (String × Dist α) :=",
+            "  [" + ", ".join(f"({lean_str(n)}, {d})" for _, n, d in lp.latents) + "]"]
+    return dict(text="\n".join(text), params=params, inlined=lp.tr.inlined, complex=False, complex_params=[], reduce="none",
+                line=fn.lineno, loss=True, site=lp.obs[0], site_kind=lp.obs[1], masked=lp.obs[2], deterministic=lp.determ,
+                latents=[n for _, n, _ in lp.latents], defaults=defaults)
+
+
 HEADER = """/-
 GENERATED by tools/translate.py from the current /repo tree — do not edit.
 The straight-line scalar kernels of pysersic, expression by expression.
@@ -734,7 +1003,17 @@ def emit(ks):
     parts.append("/-! ### prior programs -/\n\n")
     for spec in PROGRAMS:
         parts.append(ks[spec["lean"]]["text"] + "\n\n")
+    parts.append("/-! ### loss programs -/\n\n")
+    for name in LOSSES:
+        parts.append(ks[name + "_pixel"]["text"] + "\n\n")
     parts.append("end\n\n")
+    parts.append("/-- per loss: (function, site name, site kind, under handlers.mask, deterministic sites, latent sites) -/\n")
+    rows = ", ".join('(%s, %s, %s, %s, [%s], [%s])' % (
+        lean_str(n), lean_str(ks[n + "_pixel"]["site"]), lean_str(ks[n + "_pixel"]["site_kind"]),
+        "true" if ks[n + "_pixel"]["masked"] else "false",
+        ", ".join(lean_str(x) for x in ks[n + "_pixel"]["deterministic"]),
+        ", ".join(lean_str(x) for x in ks[n + "_pixel"]["latents"])) for n in LOSSES)
+    parts.append(f"def lossMeta : List (String × String × String × Bool × List String × List String) := [{rows}]\n\n")
     parts.append("/-- the translated kernels at `Float`, by name (complex arguments and results as re, im), for the driver -/\n")
     parts.append("def evalF (name : String) (a : Array Float) : Option (List Float) :=\n  match name with\n")
     for spec in KERNELS:
@@ -797,6 +1076,19 @@ def regenerate(write=True):
             if spec["lean"] not in fallback:
                 raise
             ks[spec["lean"]] = fallback[spec["lean"]]
+    for name in LOSSES:
+        key = name + "_pixel"
+        try:
+            if "loss.py" not in trees:
+                src = (REPO / "pysersic" / "loss.py").read_text()
+                trees["loss.py"] = (ast.parse(src), src)
+            tree, src = trees["loss.py"]
+            ks[key] = translate_loss(name, tree, src)
+        except Exception as e:
+            failed[key] = f"{type(e).__name__}: {e}"
+            if key not in fallback:
+                raise
+            ks[key] = fallback[key]
     text = emit(ks)
     status = "unchanged"
     if write:
@@ -831,6 +1123,9 @@ if __name__ == "__main__":
         for spec in PROGRAMS:
             src = (REPO / "pysersic" / spec["file"]).read_text()
             ks[spec["lean"]] = translate_program(spec, ast.parse(src), src)
+        src = (REPO / "pysersic" / "loss.py").read_text()
+        for name in LOSSES:
+            ks[name + "_pixel"] = translate_loss(name, ast.parse(src), src)
         FALLBACK.write_text(json.dumps(ks, indent=1))
         print("fallback updated")
     rep = regenerate()
